@@ -30,7 +30,7 @@ def run_case(args):
     hout = os.path.join(d, "c%d.impl" % k)
     st = lib.run_harness("net", cpath, hout)
     impl = lib.read_lines(hout)
-    perm = perm_from_obs(impl, inst)
+    perm = lib.perm_of(impl, inst)
     mpath = os.path.join(d, "c%d.min" % k)
     with open(mpath, "w") as f:
         f.write(" ".join(str(x) for x in instgen.encode(inst, perm)) + "\n")
